@@ -173,6 +173,11 @@ class Check:
         if ex.capped:
             self.undecided.append((where, "path cap reached"))
 
+    def path_obligations(self, p, pi):
+        """obligations recorded by loop contracts / call-site requires during the exploration of path p"""
+        for (n, inst, goal, detail) in p.ctx.obligations:
+            self.ob(n, f"{pi} {inst}".strip(), p.ctx.pc, goal, detail=detail)
+
     def assume(self, text):
         if text not in self.assumptions:
             self.assumptions.append(text)
